@@ -153,7 +153,7 @@ def run():
         bad[k]["st"]["tcache"] = [t for t in bad[k]["st"]["tcache"] if t != bad[k]["call"]["t"]]
         bfs = vf.write_ndjson(os.path.join(sd, "selftest.ndjson"), [bad])
         nsh = 8 if thorough else 6
-        tmo = 2400 if thorough else 900
+        tmo = 2400 if thorough else 1200
         mout = os.path.join(sd, "mut.ndjson")
         with ThreadPoolExecutor(max_workers=nsh + 2) as ex:
             fs = [ex.submit(_run_test, binp, sd, "TestVerifC21Replay",
